@@ -210,7 +210,7 @@ Definition nstep (w : nworld) (op : tree) : nworld * tree :=
           end
       end
   (* NetcodeClient::new in unsecure mode: the client builds its own token (zero key, fixed expiry and timeout) *)
-  | TL [TN 128; TN k; TN now; TN protocol; TN cid; a; TB user; TB xnonce; TB c2s; TB s2c] =>
+  | TL [TN 128; TN k; TN tk; TN now; TN protocol; TN cid; a; TB user; TB xnonce; TB c2s; TB s2c] =>
       match d_addr a with
       | Some sa =>
           match token_generate now protocol NC_UNSECURE_EXPIRE_SECS cid (Z.of_N NC_UNSECURE_TIMEOUT_SECS) [sa] user
@@ -218,7 +218,7 @@ Definition nstep (w : nworld) (op : tree) : nworld * tree :=
           | Ok t =>
               match nclient_new now t with
               | Ok c => ({| nw_server := nw_server w; nw_clients := aput k c (nw_clients w);
-                            nw_tokens := aput (1000 + k) t (nw_tokens w); nw_replays := nw_replays w |},
+                            nw_tokens := aput tk t (nw_tokens w); nw_replays := nw_replays w |},
                          TL [TN 0; TB (token_write t)])
               | Err e => (w, TL [TN 1; t_nerr e])
               | Panic _ => (w, T_PANIC)
